@@ -143,10 +143,14 @@ def eval_case(case):
         prop = PopulationPropagator(ta, RateMatrix(data=K.copy()) if as_rm else K.copy())
         bound = 2 * taylor_bound(K, dt, 4, Nt - 1) + 1e-12
         worst = 0.0
-        for k in range(n):
-            p0 = numpy.zeros(n)
-            p0[k] = 1.0
-            pops = prop.propagate(p0.copy())
+        inits = [(numpy.eye(n)[k], "float-array") for k in range(n)]
+        inits += [([1 if i == k else 0 for i in range(n)], "int-list") for k in range(n)]
+        inits += [(numpy.array([1 if i == 0 else 0 for i in range(n)]), "int-array"),
+                  (tuple(1.0 / n for i in range(n)), "float-tuple")]
+        for k, (pin, pkind) in enumerate(inits):
+            p0 = numpy.array(pin, dtype=float)
+            arg = pin.copy() if isinstance(pin, numpy.ndarray) else type(pin)(pin)
+            pops = numpy.asarray(prop.propagate(arg), dtype=float)
             if pops.shape != (Nt, n):
                 viol.append(("propagate/shape", "shape %r" % (pops.shape,), None))
                 break
@@ -161,16 +165,44 @@ def eval_case(case):
             err = float(numpy.max(numpy.abs(pops - ref)))
             worst = max(worst, err)
             if err > bound:
-                viol.append(("propagate/differs-from-exponential/%s" % gk,
-                             "%s Nt=%d dt=%g p0=e%d: error %g, truncation bound %g"
-                             % (case["gen"], Nt, dt, k, err, bound), {"err": err, "bound": bound}))
-            if not numpy.array_equal(p0, numpy.eye(n)[k]):
+                viol.append(("propagate/differs-from-exponential/%s/%s" % (gk, pkind),
+                             "%s Nt=%d dt=%g p0=%s (%s): error %g, truncation bound %g"
+                             % (case["gen"], Nt, dt, p0.tolist(), pkind, err, bound),
+                             {"err": err, "bound": bound}))
+            if not numpy.array_equal(numpy.asarray(arg, dtype=float), p0):
                 viol.append(("propagate/initial-vector-modified", "p0 changed", None))
         if not numpy.array_equal(numpy.asarray(prop.KK), K):
             viol.append(("propagate/rate-matrix-modified", "K changed by propagate", None))
         return {"nontrivial": True, "violations": _dedup(viol),
                 "outcome": [case["gen"], Nt, dt, round(worst / max(bound, 1e-300), 3)],
-                "n": n - 1}
+                "n": len(inits) - 1}
+    if case["kind"] == "useq":
+        # a HISTORY of requests on ONE propagator object: every sub-axis of the list in turn,
+        # interleaved with propagate(); each answer must be the exponential on its own axis
+        prop = PopulationPropagator(ta, RateMatrix(data=K.copy()))
+        worst = 0.0
+        for idx, (s, m, L) in enumerate(case["subs"]):
+            sub = qr.TimeAxis(t0 + s * dt, L, m * dt)
+            if not sub.is_subset_of(ta):
+                continue
+            U = prop.get_PropagationMatrix(sub)
+            err = max(float(numpy.max(numpy.abs(U[:, :, i] -
+                      scipy.linalg.expm(K * ((s + i * m) * dt))))) for i in range(L))
+            worst = max(worst, err)
+            if not numpy.isfinite(err) or err > 1e-9:
+                viol.append(("propagation-matrix/depends-on-earlier-requests/%s" % gk,
+                             "%s: request #%d (start index %d, stride %d, length %d) on a "
+                             "propagator that already served %r differs from expm(K t) by %g"
+                             % (case["gen"], idx, s, m, L, case["subs"][:idx], err),
+                             {"err": err}))
+                break
+            if idx % 2 == 0:
+                p0 = numpy.eye(n)[0]
+                pops = prop.propagate(p0.copy())
+                if abs(pops[-1].sum() - 1.0) > 1e-10:
+                    viol.append(("propagate/sum-not-conserved", "after matrix requests", None))
+        return {"nontrivial": len(case["subs"]) > 1, "violations": _dedup(viol),
+                "outcome": [case["gen"], "seq", case["order"], Nt, dt, round(worst, 12)]}
     # propagation matrix on a sub axis
     prop = PopulationPropagator(ta, RateMatrix(data=K.copy()))
     s, m, L = case["sub"]
@@ -220,6 +252,21 @@ def grid_cases(tier):
                 cs.append({"kind": "propagate", "gen": g, "Nt": Nt, "dt": dt, "t0": t0,
                            "as_rm": as_rm})
             smax = Nt - 1
+            subs = []
+            for m in range(1, 5):
+                for s in (0, 1, 2):
+                    L = (Nt - 1 - s) // m + 1
+                    if L >= 2:
+                        subs.append([s, m, min(L, 4)])
+            for order, lst in (("ascending", subs), ("descending", subs[::-1]),
+                               ("interleaved", subs[::2] + subs[1::2])):
+                cs.append({"kind": "useq", "gen": g, "Nt": Nt, "dt": dt, "t0": t0,
+                           "subs": lst, "order": order})
+            if tier == "thorough":
+                import itertools
+                for a, b in itertools.permutations(subs, 2):
+                    cs.append({"kind": "useq", "gen": g, "Nt": Nt, "dt": dt, "t0": t0,
+                               "subs": [a, b], "order": "pair"})
             for m in range(1, (6 if tier == "quick" else 11)):
                 for s in range(0, min(smax, 7 if tier == "quick" else 13)):
                     Lmax = (Nt - 1 - s) // m + 1
